@@ -61,6 +61,11 @@ def wrap_inputs(chk):
             # two words that exactly fill the line
             a = rng.randrange(1, max(2, w - 1))
             yield 'fill', ' '.join(['y' * a, 'z' * max(1, w - 1 - a)] * rng.randrange(1, 4)), w
+    # long texts (tens to hundreds of lines)
+    for _ in range(chk.scale(12, 60)):
+        w = rng.choice((5, 10, 20, 40, 77))
+        ws = ['x' * rng.choice((1, 2, 3, w // 2, w // 2 + 1, w - 1, w)) for _ in range(rng.randrange(60, 400))]
+        yield 'long', ' '.join(ws), w
     # widths the real code rejects
     for w in (0, -1, -7):
         for s in ('', 'a', 'a b'):
@@ -103,7 +108,7 @@ def corr_wrap(chk, skoolkit):
                     chk.violation('wrap-width', 'skoolkit.wrap emits an over-wide line with more than one word',
                                   {'kind': 'wrap', 'text': s, 'width': w})
         # textbook greedy wrap on the same words (ties Wrap.wrapWords / WrapSpec to the real code)
-        if r is not None and tag in ('boundary', 'fill', 'exh') and not any(c in s for c in EXOTIC):
+        if r is not None and tag in ('boundary', 'fill', 'exh', 'long') and not any(c in s for c in EXOTIC):
             ops.append(('words %d ' % w + cps(s)).rstrip())
             rn = skoolkit.wrap(' '.join(s.split()), w)
             impl.append('ok %d' % len(rn) + ''.join(' | ' + cps(l) for l in rn))
@@ -159,6 +164,8 @@ def run_rows(chk, mods, props, instrs):
         return 'err noInstr'
     except ValueError:
         return 'err ValueError'
+    except Exception as e:
+        return 'err py ' + type(e).__name__
     return events(out.getvalue(), err.getvalue(), w.line_width)
 
 
@@ -270,10 +277,14 @@ def corr_braces(chk, skoolutils, snaskool):
                 lines.append(l)
             comments.append((Ins(), lines, []))
             toks.append(' / '.join(cps(l) for l in lines))
-        skoolutils.parse_address_comments(comments)
-        got = [c[0].got for c in comments if c[0] is not None and c[0].got is not None]
+        try:
+            skoolutils.parse_address_comments(comments)
+            got = [c[0].got for c in comments if c[0] is not None and c[0].got is not None]
+            res = 'ok' + ''.join(' | %d : %s' % (rs, cps(t)) for rs, t in got)
+        except Exception as e:              # the real code must not raise here: a difference from the model, not a harness failure
+            got, res = [], 'err py ' + type(e).__name__
         ops.append('decode ' + ' | '.join(toks))
-        impl.append('ok' + ''.join(' | %d : %s' % (rs, cps(t)) for rs, t in got))
+        impl.append(res)
         chk.case('decode', ('decode', n_case) if any(rs > 1 for rs, t in got) else None,
                  {'op': 'parse_address_comments', 'lines': [c[1] for c in comments][:4], 'impl': got[:4]} if n_case < 2 else None)
     # writer
@@ -296,13 +307,17 @@ def corr_braces(chk, skoolutils, snaskool):
         block = types.SimpleNamespace(
             instructions=[types.SimpleNamespace(operation='NOP', comment=None, bytes=[0]) for _ in range(n)],
             comment=[(0, text)], repeat_comment=False)
-        w._format_instruction_comments(block, width, False)
-        res = []
-        for ins in block.instructions:
-            c = ins.comment
-            res.append('N' if c == [None] else ' / '.join(cps(l) for l in c))
+        try:
+            w._format_instruction_comments(block, width, False)
+            res = []
+            for ins in block.instructions:
+                c = ins.comment
+                res.append('N' if c == [None] else ' / '.join(cps(l) for l in c))
+            res = 'ok' + ''.join(' | ' + r for r in res)
+        except Exception as e:
+            res = 'err py ' + type(e).__name__
         ops.append(('snafmt %d %d %s' % (n, width, cps(text))).rstrip())
-        impl.append('ok' + ''.join(' | ' + r for r in res))
+        impl.append(res)
         chk.case('snafmt', ('snafmt', n_case) if n > 1 and text else None,
                  {'op': '_format_instruction_comments', 'n': n, 'width': width, 'text': text[:60], 'impl': [i.comment for i in block.instructions][:3]} if n_case < 2 else None)
     model = chk.run_driver('C18', ops)
@@ -373,8 +388,9 @@ def check_html(chk, mods, spec, text):
     return fails
 
 
-def check_ctl(chk, mods, spec, line_width):
-    ctl, end = annot.ctl_text(spec)
+def check_ctl(chk, mods, spec, line_width, ctl=None):
+    if ctl is None:
+        ctl, end = annot.ctl_text(spec)
     org, data = annot.code_bytes(spec)
     bfn = os.path.join(chk.scratch, 'c.bin')
     cfn = os.path.join(chk.scratch, 'c.ctl')
@@ -426,6 +442,50 @@ def check_blocks(chk, mods, case, text):
     return fails + annot.check_blocks_skool(out, case)
 
 
+def check_span_table(chk, mods, case, text):
+    fn = os.path.join(chk.scratch, 's.skool')
+    with open(fn, 'w') as f:
+        f.write(text)
+    out, err = capture(mods['skool2asm'].main, ['-q', fn])
+    fails = annot.check_span_table_asm(out, case)
+    d = os.path.join(chk.scratch, 'shtml')
+    capture(mods['skool2html'].main, ['-q', '-d', d, fn])
+    with open(os.path.join(d, 's', 'asm', '32768.html')) as f:
+        fails += annot.check_span_table_html(f.read(), case)
+    bfn = os.path.join(chk.scratch, 's.bin')
+    cfn = os.path.join(chk.scratch, 's.ctl')
+    with open(bfn, 'wb') as f:
+        f.write(bytes([0xC9]))
+    with open(cfn, 'w') as f:
+        f.write(annot.span_table_ctl(case))
+    out, err = capture(mods['sna2skool'].main, ['-o', '32768', '-c', cfn, bfn])
+    return fails + annot.check_span_table_skool(out, case)
+
+
+SHORT_TABLE_KEY = 'asm-table-last-column-only-colspan-crash'
+
+
+def probe_short_table(chk, mods):
+    """A #TABLE whose last column is reached only through cells with a colspan: skool2asm aborts with IndexError
+    (Table.prepare_cells counts columns as 1 + the largest start column), so the words of the entry never appear.
+    Raised as a violation only if the integrator lists the key in KNOWN_FINDINGS.txt (then it is a known finding and
+    must keep reproducing); otherwise reported as an observation. Patch proposal: /tmp/fix_swE_1.diff."""
+    import framework
+    case = annot.SHORT_TABLE_CASE
+    text = '@start\n; ' + ' '.join(case['title']) + '\n;\n; ' + ' '.join(case['ttoks']) + '\nc32768 RET\n'
+    try:
+        fails = check_span_table(chk, mods, case, text)
+        msg = '; '.join(d for k, d in fails)
+    except IndexError as e:
+        msg = 'skool2asm raises IndexError (%s) on `%s`' % (e, ' '.join(case['ttoks']))
+    chk.case('e2e-span-table', ('spantable', 'short'), None)
+    if msg:
+        if SHORT_TABLE_KEY in framework.load_known(chk.pid):
+            chk.violation(SHORT_TABLE_KEY, msg, {'kind': 'shorttable', 'key': SHORT_TABLE_KEY})
+        else:
+            chk.note('observation (genuine defect outside the known-findings list, not raised as a violation): ' + msg)
+
+
 def rand_cfg(rng):
     return {'line_width': rng.choice((40, 41, 50, 60, 79, 79, 80, 100, 132, 200)),
             'instr_width': rng.choice((5, 10, 15, 23, 23, 30)), 'indent': rng.choice((0, 1, 2, 2, 4, 8)),
@@ -446,6 +506,12 @@ def e2e(chk, mods):
         cfg = rand_cfg(rng)
         spec = annot.gen_spec(rng, rng.randint(1, 3), cfg, long_word_in_comment_line=(n == 0),
                               long_words=(n == 0 or rng.random() < 0.25))
+        if n in (1, 2):
+            # deterministic group: dot-leading words at the start of every kind of comment line (register
+            # continuation lines with and without white space after the marker dot, paragraphs, instruction comments)
+            spec = annot.dot_words_spec((79, 50)[n - 1])
+        elif n == 3:
+            spec = annot.long_text_spec(79)          # annotations that wrap to 60-150 lines
         via = rng.random() < 0.3
         text = annot.skool_text(rng, spec, set_directives=not via)
         fails, notes = check_asm(chk, mods, spec, text, via)
@@ -457,6 +523,10 @@ def e2e(chk, mods):
     # 2. skool2html entry pages
     for n in range(chk.scale(250, 3000)):
         spec = annot.gen_spec(rng, rng.randint(1, 3), rand_cfg(rng), long_words=rng.random() < 0.25)
+        if n == 0:
+            spec = annot.dot_words_spec(79)
+        elif n == 1:
+            spec = annot.long_text_spec(79)
         text = annot.skool_text(rng, spec, set_directives=False)
         fails = check_html(chk, mods, spec, text)
         chk.case('e2e-html', ('html', n), {'tool': 'skool2html', 'entries': len(spec['entries'])} if n < 1 else None)
@@ -479,16 +549,34 @@ def e2e(chk, mods):
             # of every length around the comment width, groups of 1..3 instructions)
             lw = (79, 60, 100)[n - 1]
             spec = annot.closing_boundary_spec(lw)
-        fails, ctl = check_ctl(chk, mods, spec, lw)
+        elif n in (4, 5):
+            # deterministic group: dot-leading words pushed across the wrap boundary of register descriptions (so that
+            # they start a '.' continuation line), paragraphs and instruction comments
+            lw = (79, 60)[n - 4]
+            spec = annot.dot_words_spec(lw, ctl=True)
+        elif n == 6:
+            lw = 79
+            spec = annot.long_text_spec(lw)
+        ctl = annot.ctl_text(spec, rng)[0] if n > 6 else None       # (some comments given with dot directives)
+        fails, ctl = check_ctl(chk, mods, spec, lw, ctl)
         chk.case('e2e-ctl', ('ctl', n), {'tool': 'sna2skool', 'line_width': lw, 'entries': len(spec['entries'])} if n < 1 else None)
         report(chk, 'ctl', fails, {'spec': spec, 'text': ctl, 'line_width': lw})
     # 4. #LIST / #TABLE blocks (with sna2skool wrap flags) through the three tools
     for n in range(chk.scale(150, 2000)):
-        case = annot.gen_blocks_case(rng)
+        case = annot.gen_blocks_case(rng) if n > 1 else (annot.exact_fit_table_case(79), annot.sentence_ends_blocks_case(79))[n]
         text = annot.blocks_skool(rng, case)
         report(chk, 'blocks', check_blocks(chk, mods, case, text), {'case': case, 'text': text})
         chk.case('e2e-blocks', ('blocks', n), {'tool': 'skool2asm/skool2html/sna2skool', 'list_items': len(case['items']),
                                              'table': [len(case['rows']), len(case['rows'][0])]} if n < 1 else None)
+    # 5. #TABLE blocks whose cells span rows/columns (unique words: each exactly once, in order within its cell)
+    for n in range(chk.scale(60, 800)):
+        case = annot.gen_span_table_case(rng)
+        while case['short']:
+            case = annot.gen_span_table_case(rng)     # the class of SHORT_TABLE_KEY: one deterministic instance below
+        text = annot.span_table_skool(rng, case)
+        report(chk, 'spantable', check_span_table(chk, mods, case, text), {'case': case, 'text': text})
+        chk.case('e2e-span-table', ('spantable', n), {'tool': 'skool2asm/skool2html/sna2skool', 'definition': ' '.join(case['ttoks'])[:120]} if n < 1 else None)
+    probe_short_table(chk, mods)
     for x in sorted(tab_notes):
         chk.note('observation (not a violation), %d case(s): %s' % (tab_notes[x], x))
 
@@ -512,7 +600,13 @@ def run(chk):
                 'widths 40..200 x instruction widths x indent/tab/crlf x comment-width-min through skool2asm (@set- directives or '
                 '-P), skool2html entry pages, and ctl+binary through sna2skool (line widths 60..132); #LIST/#TABLE paragraphs '
                 '(wrapped columns, <nowrap>/<wrapalign> flags) through all three. non-trivial = wraps to > 1 line / has an '
-                'over-long word / group with rowspan > 1 / every e2e case (distinct by case index)')
+                'over-long word / group with rowspan > 1 / every e2e case (distinct by case index). Words include dot-leading words '
+                '(.25, ...more, words of 2+ dots), semicolon-leading words and sentence ends; register continuation lines with 0-2 blanks '
+                'after the marker dot; registers with Input/Output prefixes in any order (HTML: which of the two tables). Deterministic '
+                'groups: dot/semicolon-leading words at the start of every kind of source line (skool) and pushed across every wrap boundary '
+                '(ctl); annotations of 60-150 lines and 10-14 paragraphs; closing-brace fit boundary; long text around #LIST/#TABLE; #TABLEs '
+                'with colspan/rowspan/header/transparent cells (unique words: each exactly once, in order within its cell); control-file '
+                'comments given with dot/colon directives')
     chk.trusted += ['hand models lean/SkoolVerif/Model/Wrap.lean, Model/AsmRows.lean, Model/Braces.lean tied by correspondence '
                     '(harness/props/c18.py) to skoolkit.wrap, AsmWriter.print_instructions/print_comment_lines/format, '
                     'parse_address_comments, SkoolWriter._format_instruction_comments',
@@ -530,7 +624,10 @@ def run(chk):
         'with tab=1 the warning test counts the tab as one character while the comment width counts 8 columns (noted, not a violation); '
         'with crlf=1 register continuation lines end in LF (noted)',
         'known findings: asm-overlong-comment-line-no-warning (C18.C18_full_false), skool-brace-span-negative-prefix '
-        '(C18.C18_ctl_full_false, C18.C18_span_full_false)']
+        '(C18.C18_ctl_full_false, C18.C18_span_full_false)',
+        'observation (probe_short_table; raised as a violation only when its key asm-table-last-column-only-colspan-crash is listed in '
+        'KNOWN_FINDINGS.txt): skool2asm raises IndexError on a #TABLE whose last column is reached only through colspan cells; such '
+        'tables are excluded from the random span-table stream']
     mods = load(chk)
     ok = chk.lake_build([PROPS, 'SkoolVerif.Prelude.Proto'])
     chk.audit(PROPS)
@@ -554,8 +651,17 @@ def replay(chk, data):
         fails = check_html(chk, mods, data['spec'], data['text'])
     elif kind == 'blocks':
         fails = check_blocks(chk, mods, data['case'], data['text'])
+    elif kind == 'shorttable':
+        case = annot.SHORT_TABLE_CASE
+        text = '@start\n; ' + ' '.join(case['title']) + '\n;\n; ' + ' '.join(case['ttoks']) + '\nc32768 RET\n'
+        try:
+            return bool(check_span_table(chk, mods, case, text))
+        except IndexError:
+            return True
+    elif kind == 'spantable':
+        fails = check_span_table(chk, mods, data['case'], data['text'])
     else:
-        fails, _ = check_ctl(chk, mods, data['spec'], data['line_width'])
+        fails, _ = check_ctl(chk, mods, data['spec'], data['line_width'], data.get('text'))
     for k, d in fails:
         print('%s: %s' % (k, d[:300]))
     return any(k == data.get('key') for k, d in fails) if data.get('key') else bool(fails)
